@@ -119,6 +119,47 @@ def swallowed_flush_error_cases(rng, tier):
                     ["write-fault", "write-fault-plain", "swallowed-flush-error-then-write"]
 
 
+def mixed_order_cases(rng, tier):
+    """handlers of the whole family in ANY order (reads that go on after an error, propagating reads, buffered reads, writes, flushes,
+    writeable(), stream switches) under a write fault at a random call: model and crate must agree; the oracle's clauses apply as far
+    as their premises hold (a run that hangs on the request's own lock after a swallowed flush error is the known finding F5)"""
+    for _ in range(400 if tier == "quick" else 20000):
+        B = rng.choice([24, 64, 256, 8192])
+        k = rng.randrange(1, 3)
+        segs, scripts = [], []
+        for j in range(k):
+            keep = (j + 1 < k) or rng.random() < 0.3
+            w, m = C07.gen_request(rng, rng.choice([1, 2]), keep, B)
+            role = m[1]
+            segs.append((j, 0, w))
+            ops = []
+            for _ in range(rng.randrange(2, 9)):
+                r = rng.random()
+                if r < 0.3:
+                    ops.append(("read", rng.choice([1, 7, 64])))
+                elif r < 0.4:
+                    ops.append(("fill", rng.choice([0, 5, 10 ** 6])))
+                elif r < 0.48:
+                    ops.append(("writeable",))
+                elif r < 0.52 and role == 3:
+                    ops.append(("set", DATA))
+                elif r < 0.75:
+                    ops.append(("write", rng.choice([STDOUT, STDERR]), [rng.randrange(256) for _ in range(rng.choice([0, 1, 9, 40]))]))
+                elif r < 0.82:
+                    ops.append(("flush", STDOUT))
+                elif r < 0.92:
+                    ops.append(("read?", rng.choice([1, 16])))
+                else:
+                    ops.append(("readall",))
+            ops.append(rng.choice([("ret", 0, 0), ("ret", 0, 5), (), ("fail", 7)]))
+            scripts.append([o for o in ops if o])
+        ws = [rng.choice([0, 1, 3, 8, 30, 10 ** 6, 10 ** 6]) for _ in range(rng.randrange(0, 25))]
+        fault = rng.choice([W_ERR, W_ZERO, W_ERR_AB])
+        ws = ws + [fault] + [10 ** 6] * 30
+        yield conn_case(B, 1, segs, scripts, C07.io_script(rng, 200, "r"), ws, rng.choice([0, 1])), \
+            ["write-fault", "write-fault-aborted-kind" if fault == W_ERR_AB else "write-fault-plain", "mixed-order"]
+
+
 _gen_cases_c12 = gen_cases
 
 
@@ -126,6 +167,7 @@ def gen_cases(rng, tier):
     yield from _gen_cases_c12(rng, tier)
     yield from close_readahead_fault_cases(rng, tier)
     yield from swallowed_flush_error_cases(rng, tier)
+    yield from mixed_order_cases(rng, tier)
 
 
 def nontrivial(line, tags):
@@ -133,7 +175,7 @@ def nontrivial(line, tags):
 
 
 def min_classes(tier):
-    return {"eof": 2000, "read-error": 300, "write-fault": 300, "write-fault-aborted-kind": 60, "close-readahead-fault": 16, "swallowed-flush-error-then-write": 12}
+    return {"eof": 2000, "read-error": 300, "write-fault": 300, "write-fault-aborted-kind": 60, "close-readahead-fault": 16, "swallowed-flush-error-then-write": 12, "mixed-order": 400}
 
 
 def outcome(line, out):
